@@ -164,6 +164,12 @@ def r_partial_cmp(ctx, rule='R10.1'):
               'the value stage of partial_cmp deviates from the specification in case(s) %s' % bad[:4])
     ok, cut, bad_ = M.guarded(b, [b.term_point(vbb)], lambda atoms, lit: any(a[0] == 'T' and a[1] == uvt for a in atoms))
     ctx.check(ok, rule, 'value-only-if-used', b, b.loc(vbb), 'values are compared only when use_value()', 'values are compared although use_value() is false')
+    # ---- closed list of exits: a verdict is returned only out of the coordinate loop (incomparable) or after the use_value() test (the two
+    # tables above / below); a shortcut that answers before (same object, cached verdict, ..) skips the coordinates or the value
+    r_ = b.reach([(0, 0)], avoid=[b.term_point(cbb), b.term_point(uv[0][0])])
+    ctx.check(not any(p_ in r_ for p_ in ret_points(b)), rule, 'every-exit-is-decided-by-the-tables', b, b.loc(0),
+              'partial_cmp answers only after comparing coordinates (None) or after the use_value() test (loop table / value table / no-value exit)',
+              'partial_cmp can return a verdict without going through the coordinate comparison or the use_value() test (a shortcut): the verdict ignores coordinates or values')
     # ---- no-value exit -------------------------------------------------------------------------------
     fe = [(tb, 0) for bbk in b.live_blocks() if b.term(bbk)['k'] == 'switch' for (tb, lab) in b.succ(bbk)
           if (lambda lit: lit and lit[0] == 'F' and lit[1] == uvt)(M.edge_literal(b, bbk, lab))]
@@ -692,3 +698,65 @@ def r_cache_store(ctx):
     for body in [up, g, cl, ca]:
         ty = body.local_ty(1)
         ctx.check(ty.startswith('&') and not ty.startswith('&mut'), 'R18.e', 'cache/shared-ref/' + body.fn_name, body, body.loc(0), '%s takes &self (usable concurrently; Sync is enforced by rustc)' % body.fn_name, '%s takes %s' % (body.fn_name, ty))
+
+
+# ------------------------------------------------------------------------------------------------
+# R18.a (general form) — no two DashMap accesses with overlapping guard lifetimes in the stores
+# ------------------------------------------------------------------------------------------------
+def r_dashmap_guards(ctx):
+    """A DashMap accessor returns an object that keeps a shard locked (Ref / RefMut / Entry / Iter / RefMulti ..). While such an object
+    is alive, a second accessor on a DashMap in the same function may need the same shard: the thread blocks on itself — under the
+    solver's critical mutex in the parallel solver, so every worker hangs (C04). The guard's life ends at its Drop terminator or when it
+    is moved into a call that does not hand a DashMap object back."""
+    n = 0
+    for body in ctx.F.bodies.values():
+        root = ctx.F.bodies.get(body.root, body) if body.kind == 'closure' else body
+        if not (root.name.startswith(('implementation::cache::simple', '<implementation::cache::simple', 'implementation::dominance::simple', '<implementation::dominance::simple'))):
+            continue
+        acc = [(bb, t) for (bb, t) in body.calls() if (t.get('self_ty') or '').startswith('dashmap::DashMap') and not t['dest']['p']]
+        if not acc:
+            continue
+        ctx.analysed_bodies.add(body.name)
+        accp = {body.term_point(bb): t for (bb, t) in acc}
+        for (bb, t) in acc:
+            n += 1
+            live = set()
+            gl = t['dest']['l']
+            if 'dashmap::' not in (body.raw['locals'][gl].get('ty') or ''):
+                continue                    # returns a plain value (len, insert -> Option<V>, clear ..): nothing stays locked
+            # follow the guard through moves into calls that return another DashMap object
+            guards = {gl}
+            todo = [(body.after(body.term_point(bb)), gl)]
+            region = set()
+            seen_g = set()
+            while todo:
+                (starts, g) = todo.pop()
+                if g in seen_g:
+                    continue
+                seen_g.add(g)
+                ends = []
+                for b2 in body.live_blocks():
+                    t2 = body.term(b2)
+                    if t2['k'] == 'drop' and t2.get('place', {}).get('l') == g and not t2.get('place', {}).get('p'):
+                        ends.append(body.term_point(b2))
+                    elif t2['k'] == 'call' and any(a_.get('c') == 'move' and a_.get('place', {}).get('l') == g and not a_['place']['p'] for a_ in t2['args']):
+                        ends.append(body.term_point(b2))
+                        d2 = t2['dest']['l']
+                        if not t2['dest']['p'] and 'dashmap::' in (body.raw['locals'][d2].get('ty') or '') and t2.get('target') is not None:
+                            todo.append((body.after(body.term_point(b2)), d2))
+                    else:
+                        for i_, s_ in enumerate(body.stmts(b2)):
+                            rv = s_['rv']
+                            if s_['k'] == 'assign' and rv.get('k') == 'use' and rv['op'].get('c') == 'move' and rv['op'].get('place', {}).get('l') == g and not rv['op']['place']['p'] and not s_['place']['p']:
+                                todo.append(([(b2, i_ + 1)], s_['place']['l']))
+                region |= body.reach(starts, avoid=ends)
+            clash = [p_ for p_ in accp if p_ in region and p_ != body.term_point(bb)]
+            ctx.check(not clash, 'R18.a', 'no-overlapping-dashmap-guards/%s#%d' % (short_name(body), [b_ for (b_, _) in acc].index(bb)), body, body.loc(bb),
+                      'no other DashMap access happens while the object returned by this one (which keeps a shard locked) is alive',
+                      'a DashMap accessor (%s) runs while the guard returned by %s is still alive: the thread can block on its own shard lock (self-deadlock; under the critical mutex every worker hangs)'
+                      % (', '.join((accp[p_].get('callee') or '').split('::')[-1] for p_ in clash), (t.get('callee') or '').split('::')[-1]))
+    ctx.floor('R18.a', 'dashmap-accessors', None, n, 6, 'DashMap accessor calls in the two stores')
+
+
+def short_name(body):
+    return (body.fn_name or '?') + ('::closure' if body.kind == 'closure' else '')
